@@ -521,6 +521,57 @@ def _bring_names_along(target: Module, source: Module, nodes: list[ast.AST]) -> 
         have[nm] = new
 
 
+def _first_evaluated_call(e: ast.expr) -> ast.Call | None:
+    """The call of `e` that completes first in evaluation order, provided nothing observable (another call, a subscript
+    load, an attribute load of a non-name) completes before it and it is evaluated unconditionally; None otherwise."""
+    found: list[ast.Call | None] = []
+
+    def walk(n: ast.AST, conditional: bool) -> bool:
+        """Visit in evaluation order; True = stop."""
+        if isinstance(n, (ast.Lambda, ast.GeneratorExp, ast.ListComp, ast.SetComp, ast.DictComp, ast.Await, ast.Yield, ast.YieldFrom, ast.NamedExpr, ast.Starred)):
+            found.append(None)
+            return True
+        if isinstance(n, ast.BoolOp):
+            if walk(n.values[0], conditional):
+                return True
+            return any(walk(v, True) for v in n.values[1:])
+        if isinstance(n, ast.IfExp):
+            if walk(n.test, conditional):
+                return True
+            return walk(n.body, True) or walk(n.orelse, True)
+        if isinstance(n, ast.Compare) and len(n.ops) > 1:
+            found.append(None)
+            return True
+        for c in ast.iter_child_nodes(n):
+            if isinstance(c, (ast.expr_context, ast.operator, ast.unaryop, ast.cmpop, ast.boolop)):
+                continue
+            if walk(c, conditional):
+                return True
+        if isinstance(n, ast.Call):
+            found.append(None if conditional else n)
+            return True
+        if isinstance(n, ast.Subscript) or (isinstance(n, ast.Attribute) and not isinstance(n.value, ast.Name)):
+            found.append(None)
+            return True
+        return False
+
+    walk(e, False)
+    return found[0] if found else None
+
+
+def _replace_node(root: ast.AST, old: ast.AST, new: ast.AST) -> None:
+    for n in ast.walk(root):
+        for fld, val in ast.iter_fields(n):
+            if val is old:
+                setattr(n, fld, new)
+                return
+            if isinstance(val, list):
+                for i, x in enumerate(val):
+                    if x is old:
+                        val[i] = new
+                        return
+
+
 class Inliner:
     def __init__(self, mods: dict[str, Module], inv: dict) -> None:
         self.mods = mods
@@ -675,6 +726,24 @@ class Inliner:
                             self.log.append(f"{mod.relpath}:{s.lineno} {fn.name}: inlined new helper {th.node.name}() out of an if-test")
                 call = self._stmt_call(s)
                 h = self._target(mod, cls, fn, call) if call is not None else None
+                if h is None and isinstance(s, (ast.Expr, ast.Assign, ast.AnnAssign, ast.AugAssign, ast.Return)) and getattr(s, "value", None) is not None:
+                    # a statement helper called inside the statement's expression, evaluated before anything else that could observe or be
+                    # observed by it: `return table[_indices(table, values)]` reads as `t = _indices(table, values); return table[t]`
+                    first = _first_evaluated_call(s.value)
+                    nh = self._target(mod, cls, fn, first) if first is not None and first is not s.value else None
+                    if nh is not None and nh.node is not fn and nh.ret is not None and not nh.expr_helper \
+                            and not (isinstance(s, ast.AugAssign) and not isinstance(s.target, ast.Name)) \
+                            and not (isinstance(s, ast.Assign) and not all(isinstance(t, ast.Name) for t in s.targets)):
+                        self._uid += 1
+                        tmp = f"{nh.node.name.strip('_')}__value{self._uid}"
+                        pre_stmt = ast.copy_location(ast.Assign(targets=[ast.Name(id=tmp, ctx=ast.Store())], value=first), s)
+                        ast.fix_missing_locations(pre_stmt)
+                        rep = self._expand_stmt(nh, pre_stmt, first, fn, caller_names)
+                        if rep is not None:
+                            _replace_node(s, first, ast.copy_location(ast.Name(id=tmp, ctx=ast.Load()), first))
+                            out.extend(rep)
+                            changed = True
+                            self.log.append(f"{mod.relpath}:{s.lineno} {fn.name}: inlined new helper {nh.node.name}() out of an expression")
                 if h is not None and h.node is not fn:
                     rep = self._expand_stmt(h, s, call, fn, caller_names)  # type: ignore[arg-type]
                     if rep is not None:
